@@ -318,3 +318,151 @@ package gtfs
 //@ lemma hash_header_functional C13 : forall L Stream, a *Trip, b *Trip :: sameTripID(a, b) && len(a.StopTimeUpdates) == len(b.StopTimeUpdates) ==> tripHeader(L, a) == tripHeader(L, b)
 //@ canarylemma hash_nil_vs_zero_must_fail C13 : forall L Stream, a *uint32, b *uint32 :: a == nil && b != nil && *b == 0 ==> numPtrTok(L, a) == numPtrTok(L, b)
 //@ canarylemma hash_boundary_shift_must_fail C13 : forall L Stream :: strTok(strTok(L, "ab"), "c") == strTok(strTok(L, "a"), "bc")
+
+// ----------------------------------------------------------------------------------------------------------------
+// C02 — realtime converters. "On the wire" means: in the message graph proto.Unmarshal produced.
+
+//@ pure func tzOf(o *ParseRealtimeOptions) *time.Location = o.Timezone != nil ? o.Timezone : UTC
+//@ pure func strOrEmpty(p *string) string = p == nil ? "" : *p
+
+//@ func (*ParseRealtimeOptions).timezoneOrUTC
+//@   props C02 C05
+//@   requires opts != nil
+//@   ensures [zone] result == tzOf(opts) && result != nil
+//@   assigns nothing
+
+//@ func convertOptionalTimestamp
+//@   props C02 C05
+//@   requires timezone != nil
+//@   ensures [absent-stays-absent] in == nil ==> result == nil
+//@   ensures [same-instant-in-zone] in != nil && *in < 9223372036854775808 ==> result != nil && unix(*result) == *in && loc(*result) == timezone
+//@   ensures [present-stays-present] in != nil ==> result != nil
+//@   canary [must-fail] in != nil ==> loc(*result) == UTC
+//@   assigns nothing
+
+//@ func parseTripUpdate$1
+//@   props C02 C05
+//@   requires opts != nil
+//@   ensures [absent-stays-absent] stopTimeEvent == nil ==> result == nil
+//@   ensures [present] stopTimeEvent != nil ==> result != nil && result.Uncertainty == stopTimeEvent.Uncertainty
+//@   ensures [time] stopTimeEvent != nil && stopTimeEvent.Time != nil ==> result.Time != nil && unix(*result.Time) == *stopTimeEvent.Time && loc(*result.Time) == tzOf(opts)
+//@   ensures [no-time] stopTimeEvent != nil && stopTimeEvent.Time == nil ==> result.Time == nil
+//@   ensures [delay-whole-seconds] stopTimeEvent != nil && stopTimeEvent.Delay != nil ==> result.Delay != nil && *result.Delay == *stopTimeEvent.Delay * 1000000000
+//@   ensures [no-delay] stopTimeEvent != nil && stopTimeEvent.Delay == nil ==> result.Delay == nil
+//@   ensures [fresh] result == nil || fresh(result)
+//@   canary [must-fail] stopTimeEvent != nil && stopTimeEvent.Delay != nil ==> *result.Delay == *stopTimeEvent.Delay
+//@   assigns nothing
+
+//@ pure func isHMS(s string) bool = len(s) == 8 && isDigits(s[0:2]) && s[2:3] == ":" && isDigits(s[3:5]) && s[5:6] == ":" && isDigits(s[6:8])
+//@ pure func hmsNanos(s string) int = ((toInt(s[0:2]) * 60 + toInt(s[3:5])) * 60 + toInt(s[6:8])) * 1000000000
+
+//@ func parseStartTime
+//@   props C02 C05
+//@   ensures [absent] startTime == nil ==> !result.0 && result.1 == 0
+//@   ensures [well-formed] startTime != nil && isHMS(*startTime) ==> result.0 && result.1 == hmsNanos(*startTime)
+//@   ensures [malformed] startTime != nil && !isHMS(*startTime) ==> !result.0 && result.1 == 0
+//@   canary [must-fail] startTime != nil ==> result.0
+//@   assigns nothing
+
+//@ pure func isYMD(s string) bool = len(s) == 8 && isDigits(s)
+
+//@ func parseStartDate
+//@   props C02 C05
+//@   requires timezone != nil
+//@   ensures [absent] startDate == nil ==> !result.0
+//@   ensures [well-formed] startDate != nil && isYMD(*startDate) ==> result.0 && result.1 == civilMidnight(toInt((*startDate)[0:4]), toInt((*startDate)[4:6]), toInt((*startDate)[6:8]), timezone)
+//@   ensures [malformed] startDate != nil && !isYMD(*startDate) ==> !result.0
+//@   assigns nothing
+
+//@ func parseTripDescriptor
+//@   props C02 C05 C07
+//@   requires tripDesc != nil && opts != nil
+//@   ensures [trip-id] result.ID == strOrEmpty(tripDesc.TripId)
+//@   ensures [route-id] result.RouteID == strOrEmpty(tripDesc.RouteId)
+//@   ensures [direction-absent] tripDesc.DirectionId == nil ==> result.DirectionID == DirectionID_Unspecified
+//@   ensures [direction-0] tripDesc.DirectionId != nil && *tripDesc.DirectionId == 0 ==> result.DirectionID == DirectionID_False
+//@   ensures [direction-1] tripDesc.DirectionId != nil && *tripDesc.DirectionId == 1 ==> result.DirectionID == DirectionID_True
+//@   ensures [start-time] result.HasStartTime == (tripDesc.StartTime != nil && isHMS(*tripDesc.StartTime)) && (result.HasStartTime ==> result.StartTime == hmsNanos(*tripDesc.StartTime))
+//@   ensures [start-date] result.HasStartDate == (tripDesc.StartDate != nil && isYMD(*tripDesc.StartDate)) && (result.HasStartDate ==> result.StartDate == civilMidnight(toInt((*tripDesc.StartDate)[0:4]), toInt((*tripDesc.StartDate)[4:6]), toInt((*tripDesc.StartDate)[6:8]), tzOf(opts)))
+//@   ensures [schedule-relationship-absent] tripDesc.ScheduleRelationship == nil ==> result.ScheduleRelationship == 0
+//@   ensures [schedule-relationship] tripDesc.ScheduleRelationship != nil ==> result.ScheduleRelationship == *tripDesc.ScheduleRelationship
+//@   assigns nothing
+
+//@ func parseVehicleDescriptor
+//@   props C02 C05 C07
+//@   ensures [absent] vehicleDesc == nil ==> result == nil
+//@   ensures [all-empty] vehicleDesc != nil && strOrEmpty(vehicleDesc.Id) == "" && strOrEmpty(vehicleDesc.Label) == "" && strOrEmpty(vehicleDesc.LicensePlate) == "" ==> result == nil
+//@   ensures [fields] vehicleDesc != nil && !(strOrEmpty(vehicleDesc.Id) == "" && strOrEmpty(vehicleDesc.Label) == "" && strOrEmpty(vehicleDesc.LicensePlate) == "") ==> result != nil && fresh(result) && result.ID == strOrEmpty(vehicleDesc.Id) && result.Label == strOrEmpty(vehicleDesc.Label) && result.LicensePlate == strOrEmpty(vehicleDesc.LicensePlate)
+//@   canary [must-fail] vehicleDesc != nil ==> result != nil && result.Label == strOrEmpty(vehicleDesc.LicensePlate)
+//@   assigns nothing
+
+//@ func convertVehiclePosition
+//@   props C02 C05
+//@   ensures [absent] vehiclePosition == nil || vehiclePosition.Position == nil ==> result == nil
+//@   ensures [fields] vehiclePosition != nil && vehiclePosition.Position != nil ==> result != nil && fresh(result) && result.Latitude == vehiclePosition.Position.Latitude && result.Longitude == vehiclePosition.Position.Longitude && result.Bearing == vehiclePosition.Position.Bearing && result.Odometer == vehiclePosition.Position.Odometer && result.Speed == vehiclePosition.Position.Speed
+//@   assigns nothing
+
+//@ func parseVehicle
+//@   props C02 C04 C05 C07
+//@   requires vehiclePosition != nil && opts != nil
+//@   ensures [vehicle] result.1 != nil && fresh(result.1) && result.1.IsEntityInMessage && result.1.Trip == nil
+//@   ensures [fields] result.1.CurrentStopSequence == vehiclePosition.CurrentStopSequence && result.1.StopID == vehiclePosition.StopId && result.1.CurrentStatus == vehiclePosition.CurrentStatus && result.1.OccupancyStatus == vehiclePosition.OccupancyStatus && result.1.OccupancyPercentage == vehiclePosition.OccupancyPercentage
+//@   ensures [congestion] (vehiclePosition.CongestionLevel == nil ==> result.1.CongestionLevel == 0) && (vehiclePosition.CongestionLevel != nil ==> result.1.CongestionLevel == *vehiclePosition.CongestionLevel)
+//@   ensures [timestamp-absent] vehiclePosition.Timestamp == nil ==> result.1.Timestamp == nil
+//@   ensures [timestamp] vehiclePosition.Timestamp != nil && *vehiclePosition.Timestamp < 9223372036854775808 ==> result.1.Timestamp != nil && unix(*result.1.Timestamp) == *vehiclePosition.Timestamp && loc(*result.1.Timestamp) == tzOf(opts)
+//@   ensures [position] (vehiclePosition.Position == nil ==> result.1.Position == nil) && (vehiclePosition.Position != nil ==> result.1.Position != nil && result.1.Position.Latitude == vehiclePosition.Position.Latitude && result.1.Position.Longitude == vehiclePosition.Position.Longitude && result.1.Position.Bearing == vehiclePosition.Position.Bearing && result.1.Position.Odometer == vehiclePosition.Position.Odometer && result.1.Position.Speed == vehiclePosition.Position.Speed)
+//@   ensures [no-trip] vehiclePosition.Trip == nil ==> result.0 == nil
+//@   ensures [trip] vehiclePosition.Trip != nil ==> result.0 != nil && fresh(result.0) && !result.0.IsEntityInMessage && result.0.Vehicle == nil && len(result.0.StopTimeUpdates) == 0 && result.0.ID.ID == strOrEmpty(vehiclePosition.Trip.TripId) && result.0.ID.RouteID == strOrEmpty(vehiclePosition.Trip.RouteId)
+//@   ensures [vehicle-id-absent] vehiclePosition.Vehicle == nil ==> result.1.ID == nil
+//@   assigns nothing
+
+//@ func mergeTrip
+//@   props C07 C04 C05
+//@   requires t != nil
+//@   ensures [own-entity-wins] new.IsEntityInMessage ==> *t == new
+//@   ensures [mention-only-sets-id] !new.IsEntityInMessage ==> t.ID == new.ID && t.StopTimeUpdates == old(t.StopTimeUpdates) && t.Vehicle == old(t.Vehicle) && t.IsEntityInMessage == old(t.IsEntityInMessage)
+//@   canary [must-fail] !new.IsEntityInMessage ==> *t == new
+//@   assigns *t
+
+//@ func mergeVehicle
+//@   props C07 C04 C05
+//@   requires v != nil
+//@   ensures [own-entity-wins] new.IsEntityInMessage ==> *v == new
+//@   ensures [mention-only-sets-id] !new.IsEntityInMessage ==> v.ID == new.ID && v.Trip == old(v.Trip) && v.Position == old(v.Position) && v.CurrentStopSequence == old(v.CurrentStopSequence) && v.StopID == old(v.StopID) && v.CurrentStatus == old(v.CurrentStatus) && v.Timestamp == old(v.Timestamp) && v.CongestionLevel == old(v.CongestionLevel) && v.OccupancyStatus == old(v.OccupancyStatus) && v.OccupancyPercentage == old(v.OccupancyPercentage) && v.IsEntityInMessage == old(v.IsEntityInMessage)
+//@   assigns *v
+
+// C12 — the two predicates, from the property: "informs something (an agency, a route, a known route type, a stop or
+// an identifiable trip)"; "determines a trip (a trip id, or route + direction + start time + start date)"
+//@ pure func identifiable(id *TripID) bool = id != nil && (id.ID != "" || (id.RouteID != "" && id.DirectionID != DirectionID_Unspecified && id.HasStartTime && id.HasStartDate))
+
+//@ func tripIDUniquelyIdentifiesTrip
+//@   props C12 C05
+//@   ensures [from-property] result == identifiable(tripID)
+//@   canary [must-fail] result == (tripID != nil && tripID.RouteID != "")
+//@   assigns nothing
+
+//@ func alertInformedEntityInformsAtLeastOneEntity
+//@   props C12 C05
+//@   ensures [from-property] result == (alertInformedEntity.AgencyID != nil || alertInformedEntity.RouteID != nil || alertInformedEntity.RouteType != RouteType_Unknown || alertInformedEntity.StopID != nil || identifiable(alertInformedEntity.TripID))
+//@   assigns nothing
+
+//@ pure func eventFaithful(out *StopTimeEvent, in *gtfsrt.TripUpdate_StopTimeEvent, tz *time.Location) bool = (in == nil ==> out == nil) && (in != nil ==> out != nil && out.Uncertainty == in.Uncertainty && (in.Time == nil ==> out.Time == nil) && (in.Time != nil ==> out.Time != nil && unix(*out.Time) == *in.Time && loc(*out.Time) == tz) && (in.Delay == nil ==> out.Delay == nil) && (in.Delay != nil ==> out.Delay != nil && *out.Delay == *in.Delay * 1000000000))
+//@ pure func stuFaithful(out StopTimeUpdate, in *gtfsrt.TripUpdate_StopTimeUpdate, tz *time.Location) bool = out.StopSequence == in.StopSequence && out.StopID == in.StopId && eventFaithful(out.Arrival, in.Arrival, tz) && eventFaithful(out.Departure, in.Departure, tz) && (in.ScheduleRelationship == nil ==> out.ScheduleRelationship == 0) && (in.ScheduleRelationship != nil ==> out.ScheduleRelationship == *in.ScheduleRelationship)
+//@ pure func wfTripUpdate(tu *gtfsrt.TripUpdate) bool = tu != nil && (forall k int :: 0 <= k && k < len(tu.StopTimeUpdate) ==> tu.StopTimeUpdate[k] != nil)
+
+//@ func parseTripUpdate
+//@   props C02 C04 C05 C07
+//@   requires wfTripUpdate(tripUpdate) && opts != nil && opts.Extension != nil
+//@   ensures [no-descriptor] tripUpdate.Trip == nil ==> !result.2 && result.0 == nil && result.1 == nil
+//@   ensures [trip] tripUpdate.Trip != nil ==> result.2 && result.0 != nil && fresh(result.0) && result.0.IsEntityInMessage && result.0.Vehicle == nil && result.0.ID.ID == strOrEmpty(tripUpdate.Trip.TripId) && result.0.ID.RouteID == strOrEmpty(tripUpdate.Trip.RouteId)
+//@   ensures [one-update-per-wire-update] tripUpdate.Trip != nil ==> len(result.0.StopTimeUpdates) == len(tripUpdate.StopTimeUpdate)
+//@   ensures [updates-faithful] tripUpdate.Trip != nil ==> (forall k int :: 0 <= k && k < len(tripUpdate.StopTimeUpdate) ==> stuFaithful(result.0.StopTimeUpdates[k], tripUpdate.StopTimeUpdate[k], tzOf(opts)))
+//@   ensures [no-vehicle] tripUpdate.Trip != nil && tripUpdate.Vehicle == nil ==> result.1 == nil
+//@   ensures [vehicle] tripUpdate.Trip != nil && tripUpdate.Vehicle != nil ==> result.1 != nil && fresh(result.1) && !result.1.IsEntityInMessage && result.1.Trip == nil && result.1.Position == nil && result.1.Timestamp == nil && result.1.StopID == nil
+//@   ensures [vehicle-id] tripUpdate.Trip != nil && tripUpdate.Vehicle != nil && strOrEmpty(tripUpdate.Vehicle.Id) != "" ==> result.1.ID != nil && result.1.ID.ID == strOrEmpty(tripUpdate.Vehicle.Id) && result.1.ID.Label == strOrEmpty(tripUpdate.Vehicle.Label) && result.1.ID.LicensePlate == strOrEmpty(tripUpdate.Vehicle.LicensePlate)
+//@   loop 1 invariant trip != nil && len(trip.StopTimeUpdates) == $i && opts != nil && opts.Extension != nil
+//@   loop 1 invariant [ids] forall k int :: 0 <= k && k < $i ==> trip.StopTimeUpdates[k].StopSequence == tripUpdate.StopTimeUpdate[k].StopSequence && trip.StopTimeUpdates[k].StopID == tripUpdate.StopTimeUpdate[k].StopId
+//@   loop 1 invariant [rel] forall k int :: 0 <= k && k < $i ==> (tripUpdate.StopTimeUpdate[k].ScheduleRelationship == nil ==> trip.StopTimeUpdates[k].ScheduleRelationship == 0) && (tripUpdate.StopTimeUpdate[k].ScheduleRelationship != nil ==> trip.StopTimeUpdates[k].ScheduleRelationship == *tripUpdate.StopTimeUpdate[k].ScheduleRelationship)
+//@   loop 1 invariant [arr] forall k int :: 0 <= k && k < $i ==> eventFaithful(trip.StopTimeUpdates[k].Arrival, tripUpdate.StopTimeUpdate[k].Arrival, tzOf(opts))
+//@   loop 1 invariant [dep] forall k int :: 0 <= k && k < $i ==> eventFaithful(trip.StopTimeUpdates[k].Departure, tripUpdate.StopTimeUpdate[k].Departure, tzOf(opts))
+//@   loop 1 invariant trip.IsEntityInMessage && trip.Vehicle == nil && trip.ID.ID == strOrEmpty(tripUpdate.Trip.TripId) && trip.ID.RouteID == strOrEmpty(tripUpdate.Trip.RouteId)
